@@ -17,6 +17,7 @@ import (
 	"time"
 
 	"verif/engine"
+	"verif/harness/c17"
 	"verif/harness/hk"
 	"verif/harness/tcpx"
 	"verif/harness/world"
@@ -196,6 +197,23 @@ func gridFail() []tcpx.Spec {
 	}
 }
 
+// scrapeScenarios: traffic ending while the metrics are scraped and the clock moves (C17's
+// concurrent scenarios on the real collectors); here only "nothing panics, nothing hangs" is kept
+// of their oracle - a panic in a collector takes the relay goroutine, and the server, with it.
+func scrapeScenarios() []*engine.Scenario {
+	var out []*engine.Scenario
+	for _, sc := range c17.ConcScenarios() {
+		inner := sc.Check
+		sc.Name = "scrape-" + sc.Name
+		sc.Check = func(x *vrt.Exec) (string, bool, []*engine.Finding) {
+			obs, nt, _ := inner(x)
+			return obs, nt, hk.Generic(x, hk.Opts{})
+		}
+		out = append(out, sc)
+	}
+	return out
+}
+
 func init() {
 	hk.Register("C18", func(ctx *engine.Ctx) {
 		for i, c := range tcpCases(ctx.Tier) {
@@ -225,6 +243,9 @@ func init() {
 		for _, sc := range udpScenarios() {
 			engine.ExploreS(ctx, sc, engine.SConfig{BothPolicies: true, Bound: bound, Shard: ctx.Shard, NShards: ctx.NShards, Deadline: ctx.Deadline})
 		}
+		for _, sc := range scrapeScenarios() {
+			engine.ExploreS(ctx, sc, engine.SConfig{BothPolicies: true, Bound: bound, Shard: ctx.Shard, NShards: ctx.NShards, Deadline: ctx.Deadline})
+		}
 	})
 	hk.Replayers["C18"] = func(ctx *engine.Ctx, rp engine.Replay) []*engine.Finding {
 		switch rp.Unit {
@@ -249,6 +270,7 @@ func init() {
 			scs = append(scs, scenarioTCP(s, 1))
 		}
 		scs = append(scs, udpScenarios()...)
+		scs = append(scs, scrapeScenarios()...)
 		return engine.ReplayScenario(scs, rp)
 	}
 }
